@@ -988,11 +988,12 @@ type pkgSpec struct {
 }
 
 type tree struct {
-	sorted []string // file paths, sorted (for deterministic picks)
-	root   string
-	files  map[string]string // rel path -> contents
-	links  map[string]string // rel path -> target (relative symlink)
-	pkgs   []*pkgSpec
+	importers []string // extra importer files created by the generator (below nested package.json files)
+	sorted    []string // file paths, sorted (for deterministic picks)
+	root      string
+	files     map[string]string // rel path -> contents
+	links     map[string]string // rel path -> target (relative symlink)
+	pkgs      []*pkgSpec
 }
 
 func (t *tree) file(p string) {
@@ -1111,6 +1112,22 @@ var fixedSpecs = []struct{ importer, spec string }{
 	{"linked-src/pkg-l/index.js", "pkg-idx"}, {"node_modules/pkg-l/index.js", "pkg-idx"},
 	{"src/main.js", "./util"}, {"src/main.js", "./dir"}, {"src/main.js", "./dir2"}, {"src/main.js", "./both"}, {"src/main.js", "./data"}, {"src/main.js", "./noext"},
 	{"src/main.js", "./m.mjs"}, {"src/main.js", "./util.js"}, {"src/main.js", "./dir/index.js"}, {"src/deep/er/x.js", "../../util"}, {"src/deep/er/x.js", "../../dir2/entry"},
+	// self references: only the nearest package.json counts
+	{"node_modules/pkg-self/lib/user.js", "pkg-self"}, {"node_modules/pkg-self/lib/user.js", "pkg-self/sub"}, {"node_modules/pkg-self/lib/user.js", "pkg-self/only-copy"},
+	{"node_modules/pkg-self/lib/user.js", "#in"}, {"node_modules/pkg-self/lib/user.js", "pkg-self/package.json"},
+	{"node_modules/pkg-self/dist/cjs/index.js", "pkg-self"}, {"node_modules/pkg-self/dist/cjs/index.js", "pkg-self/sub"},
+	{"node_modules/pkg-self/dist/cjs/index.js", "pkg-self/only-copy"}, {"node_modules/pkg-self/dist/cjs/index.js", "#in"},
+	{"node_modules/pkg-self/dist/cjs/index.js", "pkg-self/package.json"},
+	{"node_modules/pkg-self/dist/esm/index.js", "pkg-self"}, {"node_modules/pkg-self/dist/esm/index.js", "pkg-self/only-copy"}, {"node_modules/pkg-self/dist/esm/index.js", "#in"},
+	{"node_modules/pkg-self/dist/esm/deep/x.js", "pkg-self/sub"}, {"node_modules/pkg-self/dist/esm/deep/x.js", "#in"},
+	{"node_modules/pkg-self/vendor/index.js", "other-inner"}, {"node_modules/pkg-self/vendor/index.js", "pkg-self"}, {"node_modules/pkg-self/vendor/index.js", "pkg-self/only-copy"},
+	{"node_modules/pkg-self/vendor/index.js", "#in"},
+	{"node_modules/pkg-self/same/index.js", "pkg-self"}, {"node_modules/pkg-self/same/index.js", "pkg-self/sub"}, {"node_modules/pkg-self/same/index.js", "pkg-self/only-copy"},
+	{"node_modules/pkg-self/noexp/index.js", "pkg-self"}, {"node_modules/pkg-self/noexp/index.js", "pkg-self/only-copy"},
+	{"node_modules/pkg-self/node_modules/pkg-self/main.js", "pkg-self"}, {"node_modules/pkg-self/node_modules/pkg-self/main.js", "pkg-self/sub"},
+	{"src/main.js", "pkg-self"}, {"src/main.js", "pkg-self/sub"}, {"src/main.js", "pkg-self/only-copy"},
+	{"src/main.js", "rootpkg"}, {"src/main.js", "rootpkg/package.json"}, {"src/nested/x.js", "rootpkg"}, {"src/nested/x.js", "rootpkg/package.json"},
+	{"src/nested/x.js", "pkg-self"}, {"index.js", "rootpkg"},
 	{"src/main.js", "@scope/pkg-s/package.json"}, {"src/main.js", "@scope/pkg-s/lib/a.js"}, {"src/main.js", "missing-pkg"}, {"src/main.js", "misnamed/package.json"},
 }
 
@@ -1120,6 +1137,21 @@ func (t *tree) materialise() error {
 		paths = append(paths, p)
 	}
 	sort.Strings(paths)
+	// a generated file path that is also a directory of another file loses (directories win),
+	// so that a random target like "./src" cannot shadow src/main.js
+	isDir := map[string]bool{}
+	for _, p := range paths {
+		for d := filepath.Dir(p); d != "." && d != "/"; d = filepath.Dir(d) {
+			isDir[d] = true
+		}
+	}
+	kept := paths[:0]
+	for _, p := range paths {
+		if !isDir[p] {
+			kept = append(kept, p)
+		}
+	}
+	paths = kept
 	t.sorted = paths
 	for _, p := range paths {
 		c := t.files[p]
@@ -1171,6 +1203,51 @@ func genTree(r *Rng, root string, odd int) *tree {
 	t.addFixed("node_modules/pkg-idx", `{"name":"pkg-idx"}`, "index.js", "lib/index.js", "lib/a.js")
 	t.addFixed("node_modules/pkg-dirmain", `{"name":"pkg-dirmain","main":"./lib"}`, "index.js", "lib/index.js")
 	t.addFixed("node_modules/pkg-mod", `{"name":"pkg-mod","type":"module","main":"./main.js","exports":{".":"./main.js","./*":"./lib/*.js","./internal/*":null}}`, "main.js", "lib/a.js", "lib/internal/x.js", "internal/x.js")
+	// a named package with exports that contains nested package.json files (the
+	// dist/cjs + dist/esm pattern: nameless; one with another name; one with the
+	// same name) and that can see ANOTHER copy of itself in its own node_modules:
+	// only the NEAREST package.json decides whether "pkg-self" is a self reference
+	t.addFixed("node_modules/pkg-self", `{"name":"pkg-self","exports":{".":"./main.js","./sub":"./lib/sub.js","./package.json":"./package.json"},"imports":{"#in":"./lib/in-outer.js"}}`,
+		"main.js", "lib/sub.js", "lib/in-outer.js", "lib/user.js", "index.js")
+	t.addFixed("node_modules/pkg-self/dist/cjs", `{"type":"commonjs"}`, "index.js", "in.js")
+	t.addFixed("node_modules/pkg-self/dist/esm", `{"type":"module","imports":{"#in":"./in-esm.js"}}`, "index.js", "in-esm.js", "deep/x.js")
+	t.addFixed("node_modules/pkg-self/vendor", `{"name":"other-inner","exports":{".":"./v.js"}}`, "index.js", "v.js")
+	t.addFixed("node_modules/pkg-self/same", `{"name":"pkg-self","exports":{".":"./inner-main.js"}}`, "index.js", "inner-main.js")
+	t.addFixed("node_modules/pkg-self/noexp", `{"name":"pkg-self"}`, "index.js")
+	t.addFixed("node_modules/pkg-self/node_modules/pkg-self", `{"name":"pkg-self","exports":{".":"./copy-main.js","./sub":"./copy-sub.js","./only-copy":"./oc.js"}}`,
+		"copy-main.js", "copy-sub.js", "oc.js", "main.js", "lib/sub.js")
+	// the root package too: a nameless nested package.json below it and a copy of "rootpkg" in node_modules
+	t.addFixed("src/nested", `{"type":"module"}`, "x.js")
+	t.addFixed("node_modules/rootpkg", `{"name":"rootpkg","exports":{".":"./copy.js","./package.json":"./package.json"}}`, "copy.js", "index.js")
+	// random nested package.json files inside random packages (with/without name, type, own exports/imports)
+	for _, host := range []string{"node_modules/pkg-a", "node_modules/pkg-b", "linked-src/pkg-l", "node_modules/@scope/pkg-s", "."} {
+		if !r.Chance(55) {
+			continue
+		}
+		sub := r.Pick([]string{"dist", "dist/cjs", "esm", "lib/inner", "src/gen"})
+		dir := filepath.Join(host, sub)
+		name := ""
+		switch r.Intn(4) {
+		case 0:
+			name = "inner-" + r.Pick(segs)
+		case 1: // the host's own name again
+			for _, p := range t.pkgs {
+				if p.dir == host {
+					name = p.name
+				}
+			}
+		}
+		t.addPkg(r, dir, name, odd)
+		t.file(filepath.Join(dir, "imp.js"))
+		t.file(filepath.Join(dir, "deeper/imp.js"))
+		t.importers = append(t.importers, filepath.Join(dir, "imp.js"), filepath.Join(dir, "deeper/imp.js"))
+	}
+	// a second copy of a package inside its own node_modules (visible from inside the package)
+	for _, nm := range []string{"pkg-a", "pkg-b"} {
+		if r.Chance(50) {
+			t.addPkg(r, "node_modules/"+nm+"/node_modules/"+nm, nm, odd)
+		}
+	}
 	if r.Chance(50) { // a package whose package.json has a different name than its directory
 		t.addPkg(r, "node_modules/misnamed", "other-name", odd)
 	}
@@ -1431,7 +1508,14 @@ func genSpecifiers(r *Rng, t *tree, n int, odd int) []glueCase {
 	importers := []string{"src/main.js", "src/deep/er/x.js", "index.js", "node_modules/pkg-a/lib/a.js", "node_modules/pkg-a/index.js",
 		"node_modules/pkg-b/index.js", "node_modules/@scope/pkg-s/lib/a.js", "linked-src/pkg-l/index.js", "node_modules/pkg-l/lib/a.js",
 		"node_modules/pkg-a/node_modules/dep-pkg/index.js"}
-	names := []string{"pkg-a", "pkg-b", "@scope/pkg-s", "dep-pkg", "only-nested", "pkg-l", "dep-of-l", "rootpkg", "misnamed", "other-name", "missing-pkg"}
+	importers = append(importers, t.importers...)
+	importers = append(importers, "node_modules/pkg-self/dist/cjs/index.js", "src/nested/x.js")
+	names := []string{"pkg-a", "pkg-b", "@scope/pkg-s", "dep-pkg", "only-nested", "pkg-l", "dep-of-l", "rootpkg", "misnamed", "other-name", "missing-pkg", "pkg-self", "pkg-a", "pkg-b"}
+	for _, p := range t.pkgs { // names of nested packages
+		if strings.HasPrefix(p.name, "inner-") {
+			names = append(names, p.name)
+		}
+	}
 	var out []glueCase
 	// Importers are given by their REAL path: without --preserve-symlinks Node
 	// (and esbuild) identify a loaded module by its realpath, so a module never
@@ -1459,11 +1543,15 @@ func genSpecifiers(r *Rng, t *tree, n int, odd int) []glueCase {
 		}
 	}
 	n += len(out)
+	attempts := 0
 	for len(out) < n {
 		imp := canon(r.Pick(importers))
 		kind := r.Pick([]string{"require", "import"})
 		if !isFile(imp) {
-			imp = "src/main.js"
+			if attempts++; attempts > 50*n+1000 {
+				break
+			}
+			continue
 		}
 		var spec, via string
 		switch k := r.Intn(100); {
@@ -1645,7 +1733,7 @@ func runGlue(r *Rng, n int, tmp string, st *Stats) {
 				map[string]interface{}{"esbuild_path": strings.TrimPrefix(eres[i].path, root), "esbuild_errors": eres[i].errs, "external": eres[i].external},
 				map[string]interface{}{"node_ok": nres[i].OK, "node_path": strings.TrimPrefix(nres[i].Path, root), "node_code": nres[i].Code, "node_msg": nres[i].Msg})
 		}
-		if ti == 0 {
+		if ti == 0 && len(cases) > 2 {
 			st.Sample(map[string]interface{}{"tree_package_json_files": pkgsDump(), "first_specifiers": []interface{}{cases[0].Spec, cases[1].Spec, cases[2].Spec}})
 		}
 		os.RemoveAll(root)
